@@ -166,6 +166,44 @@ Theorem C02_drawn_once : forall b,
 Proof. exact drawn_once. Qed.
 Print Assumptions C02_drawn_once.
 
+(* --- the visibility of a line box / inline box / container does not decide whether the text
+   boxes inside it are drawn (drawInlineLevel visits the children of a hidden box: a
+   descendant may set `visibility: visible`) *)
+Theorem C02_draw_ignores_container_visibility : forall b,
+  draw_events b = draw_events (show_boxes b).
+Proof. exact draw_ignores_container_visibility. Qed.
+Print Assumptions C02_draw_ignores_container_visibility.
+
+(* --- with inheritance (CSS 2.1 11.2): exactly the non-blank texts whose nearest ancestor that
+   sets `visibility` sets it to visible (none: the initial value) reach the backend, once
+   each, in document order -- in particular visible descendants of hidden boxes *)
+Theorem C02_visible_descendants_drawn : forall b inh,
+  draw_events (resolve_visibility inh b) =
+  filter (fun t => negb (forallb is_space_rune t)) (visible_texts inh b).
+Proof. exact visible_descendants_drawn. Qed.
+Print Assumptions C02_visible_descendants_drawn.
+
+(* --- tree.ResumeStack.Equals (target.go:50-62), the guard of the page cache of the
+   repagination rounds (remakePage keeps the cached next page only when the page made again
+   ends at the same resume point): on stacks in canonical form (entries by increasing key at
+   every level; nil = empty map) it holds exactly for EQUAL stacks, however deep down two
+   stacks differ *)
+Theorem C02_resume_stack_equals_iff_eq : forall r o,
+  ms_canonical r = true -> ms_canonical o = true -> (ms_equals r o = true <-> r = o).
+Proof. exact ms_equals_iff_eq. Qed.
+Print Assumptions C02_resume_stack_equals_iff_eq.
+
+Theorem C02_resume_stack_eqb_decides_eq : forall r o, ms_eqb r o = true <-> r = o.
+Proof. exact ms_eqb_eq. Qed.
+Print Assumptions C02_resume_stack_eqb_decides_eq.
+
+(* two resume points in the same paragraph (same keys and sizes at every level but the last
+   key) are told apart *)
+Example C02_example_equals_deep_difference :
+  ms_equals (fst ms_deep_pair) (snd ms_deep_pair) = false /\
+  length (ms_entries (fst ms_deep_pair)) = length (ms_entries (snd ms_deep_pair)).
+Proof. exact ms_equals_separates_deep_difference. Qed.
+
 (* --- findEarlierPageBreak among the children of a block container, out-of-flow boxes
    (float / absolutely positioned placeholders) included: keeping children[:j] and resuming
    at child j -- the first removed child -- is a consistent step wherever the break falls,
